@@ -8,6 +8,7 @@ import asyncio
 import itertools
 import os
 import pathlib
+import time
 
 import aioftp
 
@@ -29,11 +30,14 @@ LEVEL_TEXT = (
     "backslash nor colon (C02_confined_win_partial). Histories on ONE control connection with several logins "
     "(Model/PathsSess.v): C02_session_spec (every path handed to the backend along any history of logins, CWD/CDUP, path "
     "commands, STOR/APPE, RNFR/RNTO is base_path(owner) ++ names as an independent bookkeeping says), "
-    "C02_path_output_history_independent, C02_session_confined_plain and C02_session_confined_partial are proved for every "
-    "user table with absolute home paths and every history; the full statement (every such path lies in the base of the user "
-    "logged in at that moment) is refuted twice (C02_session_rnfr_carried_refuted = F18, C02_session_stor_root_parent_refuted = "
-    "F19). C02_get_paths_reads_only_user_and_cwd is a closed check, recomputed on every run, that the source of get_paths reads "
-    "nothing of the connection but user.base_path and current_directory and keeps no state. The models are hand-written; the "
+    "C02_path_output_history_independent, C02_session_no_path_from_previous_login (every path is owned by the user logged in "
+    "when the command ran; F18 is repaired and user() provably drops a pending rename source: closed check "
+    "C02_user_drops_rename_source), C02_session_confined_plain and C02_session_confined_partial (on the handler model, every "
+    "history: confined in the current user's base or exactly the parent of that base) are proved for every user table with "
+    "absolute home paths and every history; the full statement is refuted once (C02_session_stor_root_parent_refuted = F19). "
+    "C02_get_paths_reads_only_user_and_cwd and C02_transfers_use_the_path_resolved_at_the_command are closed checks, recomputed "
+    "on every run, that the source of get_paths reads nothing of the connection but user.base_path and current_directory and "
+    "keeps no state, and that transfer workers use the path resolved when the command was handled. The models are hand-written; the "
     "tie is a bounded-exhaustive correspondence with the real pathlib and the real get_paths (about 3*10^5 cases per quick "
     "run), histories on one reused Connection object, and wire-level sessions with re-logins on simnet with a recording backend."
 )
@@ -59,6 +63,15 @@ ASSUMPTIONS = [
 ]
 
 SEGS = ["a", "b", "..", ".", "", "a\\b", "..\\..", "C:", "C:x", "C:..", "\\x", ".hidden", "..."]
+# compatibility look-alikes of '.', '/', '\\', ':' and of plain letters ("for all path strings"): none of them is '..' or a
+# separator for the server, so each is an ordinary name -- and must stay one on the real side (no Unicode normalisation
+# between the '..' fold and the backend).  U+2024 ONE DOT LEADER, U+FF0E FULLWIDTH FULL STOP, U+2025 TWO DOT LEADER,
+# U+FF0F FULLWIDTH SOLIDUS, U+FE52 SMALL FULL STOP, U+FF3C FULLWIDTH REVERSE SOLIDUS, U+FF1A FULLWIDTH COLON,
+# U+FF41 FULLWIDTH a, e + U+0301 (decomposed e-acute), U+00E9 (composed), U+2215 DIVISION SLASH
+UNI_SEGS = ["a", "..", "", "\u2024\u2024", "\uff0e\uff0e", "\u2025", "\uff0e\uff0e\uff0fx", "\uff0e", "x\uff0fy", "\ufe52\ufe52", "\uff3cx", "C\uff1a",
+            "\uff41", "e\u0301", "\u00e9", "\u2215x"]
+UNI_COMBOS = [("posix", "/srv/ftp", "/"), ("win", "C:\\ftp", "/"), ("posix", "rel/base", "/a/b"), ("posix", "/srv/ftp", "/\u2024\u2024/\uff41"),
+              ("posix", "/", "/a"), ("posix", "/srv/\uff41", "/"), ("win", "C:\\ftp\\sub", "/a"), ("win", "ftp\\rel", "/\uff0e\uff0e")]
 PREFIXES = ["", "/", "//", "///"]
 CWDS = ["/", "/a", "/a/b", "/a/../b", "//x", "/..", "/a\\b/C:"]
 POSIX_BASES = ["/srv/ftp", "rel/base", ".", "/srv/../x", "", "/", "//srv/ftp"]
@@ -329,8 +342,9 @@ def check_get_paths(ctx, impl, flavour, base, cwd, s, mo, stream):
         )
 
 
-def stream_get_paths(ctx, xcheck, k=None, n_random=None):
-    thorough = ctx.tier == "thorough"
+def stream_get_paths(ctx, xcheck, k=None, n_random=None, layer_mod=4, layer_offsets=(0,), skip_short=False, deadline=None):
+    """deadline (time.time() value): stop between (base, cwd) pairs when it has passed (bounded search)"""
+    thorough = ctx.tier == "thorough" and deadline is None
     k = k or (4 if thorough else 3)
     n_random = n_random or (60000 if thorough else 6000)
     rng = ctx.rng
@@ -345,10 +359,13 @@ def stream_get_paths(ctx, xcheck, k=None, n_random=None):
         seen = set(short)
         long_ = [s for s in path_strings_n(k) if s not in seen]
     for idx, (flavour, base, cwd) in enumerate(combos):
+        if deadline is not None and time.time() > deadline:
+            ctx.notes.append(f"bounded search: get_paths k={k} stopped after {idx} of {len(combos)} (base, cwd) pairs")
+            break
         if thorough:
             mine = strs
         else:
-            mine = short + [s for j, s in enumerate(long_) if (j + idx) % 4 == 0]
+            mine = ([] if skip_short else short) + [s for j, s in enumerate(long_) if (j + idx) % layer_mod in layer_offsets]
         fn = 10 if flavour == "posix" else 30
         out = ctx.model([(fn, [base, cwd, s]) for s in mine])
         for s, mo in zip(mine, out):
@@ -362,8 +379,9 @@ def stream_get_paths(ctx, xcheck, k=None, n_random=None):
     for _ in range(n_random):
         flavour = rng.choice(["posix", "posix", "win"])
         base = rng.choice(POSIX_BASES if flavour == "posix" else WIN_BASES)
-        cwd = "/" + "/".join(rng.choice(SEGS[:4] + SEGS[5:]) for _ in range(rng.randint(0, 4))) if rng.random() < 0.6 else rng.choice(CWDS)
-        s = rng.choice(PREFIXES + ["", ""]) + "/".join(rng.choice(SEGS) for _ in range(rng.randint(3, 7)))
+        alpha = SEGS + UNI_SEGS[3:] if rng.random() < 0.3 else SEGS  # a third of the random paths mix in Unicode look-alikes
+        cwd = "/" + "/".join(rng.choice(alpha[:4] + alpha[5:]) for _ in range(rng.randint(0, 4))) if rng.random() < 0.6 else rng.choice(CWDS)
+        s = rng.choice(PREFIXES + ["", ""]) + "/".join(rng.choice(alpha) for _ in range(rng.randint(3, 7)))
         rnd.append((flavour, base, cwd, s))
     rnd.sort()
     out = ctx.model([(10 if f == "posix" else 30, [b, c, s]) for f, b, c, s in rnd])
@@ -372,6 +390,33 @@ def stream_get_paths(ctx, xcheck, k=None, n_random=None):
         check_get_paths(ctx, impl, flavour, base, cwd, s, mo, "get_paths_random")
     ctx.count("get_paths_random_long", len(rnd))
     ctx.sample({"stream": "get_paths", "flavour": "posix", "base": "/srv/ftp", "cwd": "/a/../b", "path": "//a/../../b/./..hidden"})
+    impl.close()
+
+
+def stream_unicode(ctx, xcheck, k=None, deadline=None):
+    """get_paths on names made of compatibility look-alikes of '.', '..', '/', '\\', ':' and letters: bounded-exhaustive
+    over UNI_SEGS (k segments, 3 prefixes) x UNI_COMBOS; same comparison and oracle as stream_get_paths"""
+    k = k or 3
+    impl = Impl()
+    strs = path_strings(k, UNI_SEGS, ["", "/", "//"])
+    shorter = path_strings(k - 1, UNI_SEGS, ["", "/", "//"])
+    n = 0
+    for idx, (flavour, base, cwd) in enumerate(UNI_COMBOS):
+        if deadline is not None and time.time() > deadline:
+            ctx.notes.append(f"bounded search: unicode k={k} stopped after {idx} of {len(UNI_COMBOS)} (base, cwd) pairs")
+            break
+        full = deadline is not None or idx < (4 if k <= 3 else 2)  # the other pairs see the strings one segment shorter
+        mine = strs if full else shorter
+        fn = 10 if flavour == "posix" else 30
+        out = ctx.model([(fn, [base, cwd, s]) for s in mine])
+        for s, mo in zip(mine, out):
+            ctx.case(("gpu", flavour, base, cwd, s))
+            check_get_paths(ctx, impl, flavour, base, cwd, s, mo, "get_paths_unicode")
+            if len(xcheck) < 96 and ctx.rng.random() < 0.0005:
+                xcheck.append((fn, [base, cwd, s], mo))
+        n += len(mine)
+    ctx.count(f"get_paths_unicode_lookalikes_k{k}", n)
+    ctx.sample({"stream": "unicode", "flavour": "posix", "base": "/srv/ftp", "cwd": "/", "path": "\uff0e\uff0e\uff0fx/\u2024\u2024/a"})
     impl.close()
 
 
@@ -438,7 +483,7 @@ def stream_histories(ctx, xcheck):
 #         [4,s] STOR/APPE | [5,s,ok] RNFR | [6,s,ok] RNTO            (ok = accepted by the decorators)
 SESS_POSIX_USERS = [("/srv/a", "/"), ("/srv/b", "/"), ("/srv/a", "/d"), ("/srv/a/d", "/"), ("rel/base", "/a/../b"), ("", "/"), ("/", "/srv/a"), ("/srv/b", "/a\\b/C:")]
 SESS_WIN_USERS = [("C:\\ftp", "/"), ("C:\\ftp\\sub", "/a"), ("ftp\\rel", "/")]
-SESS_ARGS = ["f", "/f", "d", "/d", "d/f", "../f", "..", "/", "", ".", "//f", "/d/../f", "a\\b", "C:x", "../../f", "g"]
+SESS_ARGS = ["f", "/f", "d", "/d", "d/f", "../f", "..", "/", "", ".", "//f", "/d/../f", "a\\b", "C:x", "../../f", "g", "\uff0e\uff0e/f", "\u2024\u2024", "d/\uff0e\uff0e\uff0ff"]
 
 
 _REPORTED = {}
@@ -516,9 +561,11 @@ def run_session_impl(users, first, events):
         ran_as = cur  # the user logged in when the command arrived (a login command runs under the previous one)
         if ev[0] == 0:
             if ev[1] < len(objs):
-                # Server.user(): del user / logged, set user, current_directory = home_path
+                # Server.user(): del user / logged / rename_from, set user, current_directory = home_path
                 del conn.user
                 del conn.logged
+                del conn.rename_from
+                rn = None
                 conn.user = objs[ev[1]]
                 conn.current_directory = objs[ev[1]].home_path
                 conn.logged = True
@@ -679,7 +726,7 @@ WIRE_TREE = {
 }
 # login, password, base_path, home_path
 WIRE_USERS = [("alice", "a", "/alice", "/"), ("bob", "b", "/bob", "/d"), ("carol", "c", "alice/d", "/"), ("root", "r", "/", "/alice"), ("dave", "d", "/bob", "/")]
-WIRE_ARGS = ["f", "/f", "d", "/d", "d/g", "g", "../f", "..", "/", "", ".", "//f", "/d/../f", "x/f", "e", "new", "/d/new", "../../f", "/alice/f"]
+WIRE_ARGS = ["f", "/f", "d", "/d", "d/g", "g", "../f", "..", "/", "", ".", "//f", "/d/../f", "x/f", "e", "new", "/d/new", "../../f", "/alice/f", "\uff0e\uff0e/f", "d/\u2024\u2024/f", "\uff0e\uff0e\uff0ff"]
 PATH_VERBS = ["CWD", "MLST", "MKD", "RMD", "DELE", "RNFR", "RNTO", "LIST", "MLSD", "RETR", "STOR", "APPE"]
 DATA_VERBS = ("LIST", "MLSD", "RETR", "STOR", "APPE")
 
@@ -880,7 +927,7 @@ def check_wire(ctx, events, stream="wire"):
 def stream_wire(ctx, xcheck):
     rng = ctx.rng
     n = 1200 if ctx.tier == "thorough" else 120
-    hs = [gen_wire_history(rng) for _ in range(n)]
+    hs = [list(h) for h in WIRE_CORPUS] + [gen_wire_history(rng) for _ in range(n)]
     # fixed shapes: the same request before and after a re-login, for every pair of users and several verbs
     for a in WIRE_USERS:
         for b in WIRE_USERS:
@@ -930,6 +977,99 @@ def stream_wire(ctx, xcheck):
     xcheck.extend((50, a, mo) for (_, a), mo in list(zip(cases, out))[:4])
 
 
+# ---- transfers are carried out when the data connection arrives: the location is fixed when the command is handled
+DEFER_CASES = [
+    # (login, password, cwd0, verb, arg)
+    ("alice", "a", "/d", "RETR", "g"), ("alice", "a", "/d", "STOR", "new"), ("alice", "a", "/", "LIST", "d"), ("alice", "a", "/d", "MLSD", "."),
+    ("bob", "b", "/d", "RETR", "g"), ("bob", "b", "/x", "RETR", "../f"), ("bob", "b", "/d", "STOR", "e/new"), ("bob", "b", "/x", "LIST", ""),
+    ("carol", "c", "/", "RETR", "g"), ("carol", "c", "/", "APPE", "f"), ("root", "r", "/alice/d", "RETR", "g"), ("root", "r", "/bob", "MLSD", "d"),
+]
+DEFER_BETWEEN = [
+    [("CWD", "/")], [("CWD", "/e")], [("CWD", "/d")], [("CDUP", "")], [("USER", "dave"), ("PASS", "d")], [("USER", "root"), ("PASS", "r")],
+    [("USER", "alice"), ("PASS", "a"), ("CWD", "d")], [("USER", "nobody")], [],
+]
+
+
+def run_deferred(login, password, cwd0, verb, arg, between):
+    """USER/PASS; CWD cwd0; PASV; VERB arg (150); <between>; data connection -> observation (recorded backend calls)"""
+    log = []
+    ob = {"between": []}
+
+    async def main(net):
+        users = [aioftp.User(l, p, base_path=b, home_path=h) for l, p, b, h in WIRE_USERS]
+        server = aioftp.Server(users, path_io_factory=aioftp.MemoryPathIO, wait_future_timeout=5)
+        server.path_io_factory.state = ftpsim.mem_state(WIRE_TREE)
+        server.path_io_factory.factory = rec_factory(log)
+        await server.start("127.0.0.1", ftpsim.PORT)
+        raw = await simnet.Raw.connect(net, server.server_port)
+        await raw.drain_replies()
+        await raw.send("USER " + login)
+        ob["login"] = simnet.final_codes(await raw.send("PASS " + password))
+        ob["cwd0"] = simnet.final_codes(await raw.send("CWD " + cwd0))
+        port = ftpsim.parse_passive(await raw.send("PASV"))
+        mark = len(log)
+        ob["codes"] = simnet.final_codes(await raw.send(f"{verb} {arg}".rstrip()))
+        ob["calls_request"] = log[mark:]
+        for bv, ba in between:
+            ob["between"].append(simnet.final_codes(await raw.send(f"{bv} {ba}".rstrip())))
+        mark = len(log)
+        if port is not None:
+            try:
+                r, w = await net.open_connection("127.0.0.1", port)
+                if verb in ("STOR", "APPE"):
+                    w.write(b"deferred")
+                    w.close()
+                await net.settle()
+                if not w.transport.is_closing():
+                    w.close()
+            except (ConnectionRefusedError, OSError) as e:
+                ob["data_error"] = repr(e)
+        ob["after"] = simnet.final_codes(await raw.drain_replies())
+        ob["calls_worker"] = log[mark:]
+        await server.close()
+
+    try:
+        simnet.run(main)
+    except Exception as e:  # noqa: BLE001 - observation
+        ob["error"] = repr(e)
+    return ob
+
+
+def deferred_oracle(login, cwd0, verb, arg, between, ob):
+    """every path the worker hands to the backend is base_path(user at the command) + normalize(cwd at the command, arg)
+    (or an entry of that directory for LIST/MLSD)"""
+    if "error" in ob:
+        return [("wire-driver-error", ob["error"])]
+    if ob.get("login") != ["230"] or ob.get("cwd0") != ["250"] or ob.get("codes") != ["150"]:
+        return []
+    base = pathlib.PurePosixPath({u[0]: u[2] for u in WIRE_USERS}[login])
+    norm = py_normalize(cwd0, arg)
+    target = str(base.joinpath(*norm) if norm else base)
+    bad = []
+    for name, args in ob["calls_worker"]:
+        for p in args:
+            if p == target or (verb in ("LIST", "MLSD") and name != "list" and str(pathlib.PurePosixPath(p).parent) == target):
+                continue
+            bad.append(("wire-deferred-foreign-path", f"{verb} {arg!r} handled as {login} in {cwd0} addresses {target!r}; after {between} the transfer "
+                        f"calls {name}({p!r})"))
+    return bad
+
+
+def stream_deferred(ctx):
+    cases = [(c, b) for i, c in enumerate(DEFER_CASES) for j, b in enumerate(DEFER_BETWEEN) if ctx.tier == "thorough" or (i + j) % 3 == 0]
+    n150 = 0
+    for (login, password, cwd0, verb, arg), between in cases:
+        ctx.case(("deferred", login, cwd0, verb, arg, repr(between)))
+        ctx.traces_impl += 1
+        ob = run_deferred(login, password, cwd0, verb, arg, between)
+        n150 += ob.get("codes") == ["150"]
+        for key, detail in deferred_oracle(login, cwd0, verb, arg, between, ob)[:1]:
+            report(ctx, f"wire session with a deferred transfer: {detail}",
+                   {"key": key, "deferred": True, "login": login, "password": password, "cwd": cwd0, "verb": verb, "arg": arg, "between": [list(b) for b in between]})
+    ctx.count("deferred_transfer_sessions", len(cases))
+    ctx.count("deferred_transfer_sessions_150", n150)
+
+
 # ---------------------------------------------------------------- known findings
 WITNESSES = [
     # (finding key, flavour, base, cwd, path)
@@ -952,8 +1092,12 @@ def run_witness(flavour, base, cwd, s):
 
 
 # wire-level witnesses of the session findings: key -> history on one control connection
+# the former witness of F18 (repaired in /repo 8b539d4: user() drops a pending rename source) stays as a corpus case
+WIRE_CORPUS = [
+    [("USER", "alice", None), ("PASS", "a", None), ("RNFR", "/f", None), ("USER", "dave", None), ("PASS", "d", None), ("RNTO", "/taken", None), ("MLST", "/f", None)],
+    [("USER", "alice", None), ("PASS", "a", None), ("RNFR", "d/g", None), ("USER", "nobody", None), ("USER", "carol", None), ("PASS", "c", None), ("RNTO", "g2", None)],
+]
 WIRE_WITNESSES = {
-    "wire-relogin-rnfr-carried": [("USER", "alice", None), ("PASS", "a", None), ("RNFR", "/f", None), ("USER", "dave", None), ("PASS", "d", None), ("RNTO", "/taken", None)],
     "wire-stor-root-parent-probe": [("USER", "alice", None), ("PASS", "a", None), ("PASV", "", None), (ftpsim.DATACONN, "", None), ("STOR", "/", b"x")],
 }
 
@@ -979,9 +1123,13 @@ def known(ctx):
 
 
 # ---------------------------------------------------------------- entry points
-def correspondence(ctx, widen=False):
+def correspondence(ctx):
     ctx.extra["rule"] = (
-        "streams: (pathlib) every string of <= 3 segments (4 thorough) over {a,..,.,'',a\\b,.h,...} x prefixes {'','/','//','///'} "
+        "streams: (unicode) every string of <= 3 segments (4 thorough) over 16 segments made of compatibility look-alikes of "
+        "'.', '..', '/', '\\', ':' and letters (U+2024 U+FF0E U+2025 U+FE52 U+FF0F U+FF3C U+FF1A U+FF41, decomposed/composed e-acute, "
+        "U+2215) x 3 prefixes on 8 (flavour, base, cwd) pairs; (deferred, inside wire) transfers answered 150 whose data connection "
+        "arrives after a CWD / CDUP / re-login: the backend path must be base(user at the command) + normalize(cwd at the command, arg); "
+        "(pathlib) every string of <= 3 segments (4 thorough) over {a,..,.,'',a\\b,.h,...} x prefixes {'','/','//','///'} "
         "through each unary PurePosixPath operation of the model, all pairs of <= 2-segment strings through join/relative_to/"
         "is_relative_to; (winpath) the same for PureWindowsPath over a drive/colon/backslash alphabet; (get_paths) every path "
         "string of <= 3 segments (4 thorough) over the 13-segment alphabet of the property x 4 prefixes x 7 working directories x "
@@ -1010,32 +1158,42 @@ def correspondence(ctx, widen=False):
         stream_winpath(ctx, xcheck)
     if want("normalize"):
         stream_normalize(ctx, xcheck)
+    if want("unicode"):
+        stream_unicode(ctx, xcheck, k=4 if ctx.tier == "thorough" else 3)
     if want("get_paths"):
-        if widen:
-            stream_get_paths(ctx, xcheck, k=4, n_random=40000)
-        else:
-            stream_get_paths(ctx, xcheck)
+        stream_get_paths(ctx, xcheck)
     if want("histories"):
         stream_histories(ctx, xcheck)
-    if not widen:
-        if want("wire"):
-            stream_wire(ctx, xcheck)
-        if want("relogin"):
-            stream_relogin(ctx, xcheck)
+    if want("wire"):
+        stream_wire(ctx, xcheck)
+        stream_deferred(ctx)
+    if want("relogin"):
+        stream_relogin(ctx, xcheck)
     ok, out = core.vm_crosscheck(EXTRACT, xcheck[:100])
     ctx.extra["vm_compute_crosscheck"] = {"cases": len(xcheck[:100]), "agree": ok}
     if not ok:
         ctx.obligation_broken("extraction-crosscheck", out)
 
 
+SEARCH_BUDGET_S = 180
+
+
 def search(ctx):
-    """the oracle already ran on every real output; when something is broken and no failing input
-    was found yet, widen the exhaustive layer once"""
+    """the oracle already ran on every real output; when an obligation or the tie is broken and no failing input
+    was found yet, widen the exhaustive layers -- within SEARCH_BUDGET_S seconds of wall time, so that the check
+    always ends with a verdict: look-alike names one segment deeper, the part of the 3-segment layer the quick
+    run spread elsewhere, a 32nd of the 4-segment layer, more random long paths"""
     if ctx.violations or ctx.tier == "thorough" or ctx.exe is None:
         return
+    xcheck = []
+    third = SEARCH_BUDGET_S / 3
     try:
-        correspondence(ctx, widen=True)
-    except Exception as e:
+        stream_unicode(ctx, xcheck, k=4, deadline=time.time() + third)
+        if not ctx.violations:
+            stream_get_paths(ctx, xcheck, k=3, n_random=8000, layer_offsets=(1, 2), skip_short=True, deadline=time.time() + third)
+        if not ctx.violations:
+            stream_get_paths(ctx, xcheck, k=4, n_random=1, layer_mod=32, layer_offsets=(0,), skip_short=True, deadline=time.time() + third)
+    except Exception as e:  # noqa: BLE001
         ctx.notes.append(f"search aborted: {e!r}")
 
 
@@ -1050,6 +1208,15 @@ def replay(ctx, data):
         for k, key, detail in problems:
             print("oracle: step", k, key, detail)
         return not problems
+    if r.get("deferred"):
+        between = [tuple(b) for b in r["between"]]
+        ob = run_deferred(r["login"], r["password"], r["cwd"], r["verb"], r["arg"], between)
+        print(r["verb"], r["arg"], "as", r["login"], "in", r["cwd"], "->", ob.get("codes"), "| between", between, "->", ob.get("between"), "| after", ob.get("after"))
+        print("backend calls of the transfer:", ob.get("calls_worker"))
+        bad = deferred_oracle(r["login"], r["cwd"], r["verb"], r["arg"], between, ob)
+        for key, detail in bad:
+            print("oracle:", key, detail)
+        return not bad
     if r.get("wire"):
         events = [(v, a, p.encode() if p is not None else None) for v, a, p in r["events"]]
         obs, tree = run_wire(events)
